@@ -34,6 +34,7 @@ import (
 	"net/http/httptest"
 	"os"
 	"path/filepath"
+	"regexp"
 	"runtime/pprof"
 	"sort"
 	"strings"
@@ -230,6 +231,85 @@ func (k kase) head() string {
 }
 
 func (k kase) sig(kind string) string { return kind + "|" + k.head() + "|files=" + filesString(k.Files) }
+
+// target: the database and measurement ("" = every measurement) the case's retention run is aimed at.
+func (k kase) target() (string, string) {
+	if k.Mode == "direct" {
+		return slots[k.Policy].DB, slots[k.Policy].M
+	}
+	return policies[k.Policy].DB, policies[k.Policy].M
+}
+
+func (k kase) shape() string {
+	if _, m := k.target(); m == "" {
+		return "unfiltered"
+	}
+	return "filtered"
+}
+
+func rel(name, target, tag string) string {
+	switch {
+	case name == target:
+		return tag
+	case strings.HasPrefix(name, target):
+		return tag + "+" // the target's name is a proper prefix of this one (prod -> prod2, cpu -> cpu2)
+	case strings.HasPrefix(target, name):
+		return tag + "-"
+	}
+	return tag + "?"
+}
+
+// role: a slot named relative to the target, keeping the direction of the shared name prefix.
+func (k kase) role(slot int) string {
+	db, m := k.target()
+	if m == "" {
+		return rel(slots[slot].DB, db, "db") + "/*"
+	}
+	return rel(slots[slot].DB, db, "db") + "/" + rel(slots[slot].M, m, "m")
+}
+
+func (k kase) roleCulprit(c string) string {
+	for i, s := range slots {
+		if strings.HasPrefix(c, s.String()+":") {
+			return k.role(i) + strings.TrimPrefix(c, s.String())
+		}
+	}
+	return c
+}
+
+func (k kase) classKey(kind string) string {
+	var fs []string
+	for _, f := range k.Files {
+		fs = append(fs, k.role(f.Slot)+":"+ftypes[f.Type].Name)
+	}
+	sort.Strings(fs)
+	if len(fs) == 0 {
+		fs = []string{"-"}
+	}
+	return fmt.Sprintf("%s|%s|cutoff=C%+dns|files=%s", kind, k.shape(), k.DeltaNS, strings.Join(fs, ","))
+}
+
+var probeMatrix = [][2]string{{"http", "local"}, {"http", "prefix"}, {"exec", "local"}, {"exec", "prefix"}, {"direct", "local"}, {"direct", "prefix"}, {"cycle", "local"}}
+
+// translate: the same layout, cutoff and target in another mode/backend (ok=false when there is no equivalent).
+func (k kase) translate(mode, backend string) (kase, bool) {
+	db, m := k.target()
+	c := kase{Mode: mode, Backend: backend, DeltaNS: k.DeltaNS, Files: k.Files, Policy: -1}
+	if mode == "direct" {
+		for i, s := range slots {
+			if s.DB == db && s.M == m {
+				c.Policy = i
+			}
+		}
+	} else {
+		for i, p := range policies {
+			if p.DB == db && p.M == m {
+				c.Policy = i
+			}
+		}
+	}
+	return c, c.Policy >= 0
+}
 
 func (k kase) focus() int {
 	if k.Mode == "direct" {
@@ -737,14 +817,14 @@ func (s state) rowsOf(slot int) map[rowT]int {
 func sameFiles(a, b state) (bool, string) {
 	for _, r := range a.rels() {
 		if f, ok := b[r]; !ok {
-			return false, r + " disappeared"
+			return false, disp(a[r]) + " disappeared"
 		} else if !bytes.Equal(f.Bytes, a[r].Bytes) {
-			return false, r + " changed"
+			return false, disp(a[r]) + " changed"
 		}
 	}
 	for _, r := range b.rels() {
 		if _, ok := a[r]; !ok {
-			return false, r + " appeared"
+			return false, disp(b[r]) + " appeared"
 		}
 	}
 	return true, ""
@@ -835,9 +915,20 @@ func (o *outcome) add(kind, culprit, desc string) {
 	o.Culprit[kind] = culprit
 }
 
+var wallClockName = regexp.MustCompile(`_\d{8}_\d{6}_\d+_b(\d+)_`)
+
+// disp: the path as it appears in descriptions; the names of files written during the case (compaction
+// outputs) contain wall-clock time and are rendered without it.
+func disp(f *fileState) string {
+	if f.Label == "new" {
+		return wallClockName.ReplaceAllString(f.Rel, "_<time>_b${1}_")
+	}
+	return f.Rel
+}
+
 func culpritOf(f *fileState) string {
 	if f.Slot < 0 {
-		return f.Rel
+		return disp(f)
 	}
 	return slots[f.Slot].String() + ":" + f.Label
 }
@@ -870,9 +961,9 @@ func judgeTransition(o *outcome, phase string, before, after state, covered map[
 		for _, r := range lost {
 			f := origin[si][r]
 			if !covered[si] {
-				o.add("untargeted-touched", culpritOf(f), fmt.Sprintf("%srow %v of %s vanished although the run does not cover %s", phase, r, f.Rel, slots[si]))
+				o.add("untargeted-touched", culpritOf(f), fmt.Sprintf("%srow %v of %s vanished although the run does not cover %s", phase, r, disp(f), slots[si]))
 			} else if r.T*1000 >= cutoffNS {
-				o.add("deleted-live-row", culpritOf(f), fmt.Sprintf("%srow %v of %s (time >= cutoff C%+dns) vanished", phase, r, f.Rel, cutoffNS-cutUS*1000))
+				o.add("deleted-live-row", culpritOf(f), fmt.Sprintf("%srow %v of %s (time >= cutoff C%+dns) vanished", phase, r, disp(f), cutoffNS-cutUS*1000))
 			}
 		}
 	}
@@ -884,17 +975,17 @@ func judgeTransition(o *outcome, phase string, before, after state, covered map[
 		}
 		filesGone++
 		if f.Slot < 0 || !covered[f.Slot] {
-			o.add("untargeted-touched", culpritOf(f), fmt.Sprintf("%s%s was removed or rewritten although the run does not cover it", phase, rel))
+			o.add("untargeted-touched", culpritOf(f), fmt.Sprintf("%s%s was removed or rewritten although the run does not cover it", phase, disp(f)))
 		}
 	}
 	for _, rel := range after.rels() {
 		g := after[rel]
 		if g.Err != "" && strings.HasSuffix(rel, ".parquet") {
-			o.add("unreadable-file", culpritOf(g), fmt.Sprintf("%s%s is unreadable after the run: %s", phase, rel, g.Err))
+			o.add("unreadable-file", culpritOf(g), fmt.Sprintf("%s%s is unreadable after the run: %s", phase, disp(g), g.Err))
 			continue
 		}
 		if success && g.Slot >= 0 && covered[g.Slot] && strings.HasSuffix(rel, ".parquet") && len(g.Rows) > 0 && g.maxUS()*1000 < cutoffNS {
-			o.add("kept-expired-file", culpritOf(g), fmt.Sprintf("%s%s remains after a successful run although its newest row is C%+dus < cutoff C%+dns", phase, rel, g.maxUS()-cutUS, cutoffNS-cutUS*1000))
+			o.add("kept-expired-file", culpritOf(g), fmt.Sprintf("%s%s remains after a successful run although its newest row is C%+dus < cutoff C%+dns", phase, disp(g), g.maxUS()-cutUS, cutoffNS-cutUS*1000))
 		}
 	}
 	return
@@ -1112,7 +1203,7 @@ func main() {
 			}
 			for _, kind := range sortedKinds(o) {
 				counters["failing_case_oracle_pairs"]++
-				run.Violate(kind+"|"+k.head()+"|culprit="+o.Culprit[kind], o.Kinds[kind], k)
+				run.Violate(fmt.Sprintf("%s|%s|%s|cutoff=C%+dns|culprit=%s", kind, k.Mode, k.shape(), k.DeltaNS, k.roleCulprit(o.Culprit[kind])), o.Kinds[kind], k)
 			}
 		}
 		for s, n := range w.stats {
@@ -1147,10 +1238,19 @@ func main() {
 	counters, samples, complete := run.SpawnShards(nShards)
 	raw, counts := run.TakeViolations()
 
-	// ---- minimise one representative per raw group (oracle kind, mode, scope, cutoff, culprit), then
-	// report by the minimal layout
+	// ---- raw groups (oracle kind, mode, scope shape, cutoff, culprit role) -> minimise one representative
+	// each (drop files while the same oracle still fails) -> classes keyed by the minimal layout written
+	// in roles relative to the scope (so the six symmetric policies collapse) -> probe every class in the
+	// fixed mode/backend matrix, which becomes the "where" part of the signature (tier independent).
 	var w0 *worker
 	minimRuns := 0
+	type classT struct {
+		rep  kase
+		kind string
+		desc string
+		n    int
+	}
+	classes := map[string]*classT{}
 	for _, v := range raw {
 		if w0 == nil {
 			w0 = newWorker()
@@ -1188,8 +1288,24 @@ func main() {
 			cleanup()
 			ev.Nondeterminism("minimal case for " + v.Signature + " did not reproduce identically")
 		}
-		for i := 0; i < counts[v.Signature]; i++ {
-			run.Violate(c.sig(kind), o1.Kinds[kind], c)
+		key := c.classKey(kind)
+		if cl, ok := classes[key]; ok {
+			cl.n += counts[v.Signature]
+		} else {
+			classes[key] = &classT{rep: c, kind: kind, desc: c.head() + " files=" + filesString(c.Files) + ": " + o1.Kinds[kind], n: counts[v.Signature]}
+		}
+	}
+	keys := make([]string, 0, len(classes))
+	for k := range classes {
+		keys = append(keys, k)
+	}
+	sort.Strings(keys)
+	for _, key := range keys {
+		cl := classes[key]
+		ws, where, n := w0.probe(cl.rep, cl.kind)
+		minimRuns += n
+		for i := 0; i < cl.n; i++ {
+			run.Violate(key+"|where="+ws, cl.desc+" [fails in: "+strings.Join(where, ",")+"]", cl.rep)
 		}
 	}
 	if w0 != nil {
@@ -1240,6 +1356,29 @@ func main() {
 	run.Finish()
 }
 
+// probe runs a minimal case in every mode/backend of the fixed matrix; "all" when every applicable one fails.
+func (w *worker) probe(rep kase, kind string) (string, []string, int) {
+	var where []string
+	all := true
+	n := 0
+	for _, pr := range probeMatrix {
+		c, ok := rep.translate(pr[0], pr[1])
+		if !ok {
+			continue
+		}
+		n++
+		if _, bad := w.judge(c).Kinds[kind]; bad {
+			where = append(where, pr[0]+"/"+pr[1])
+		} else {
+			all = false
+		}
+	}
+	if all {
+		return "all", where, n
+	}
+	return strings.Join(where, ","), where, n
+}
+
 func replay(run *ev.Run) {
 	b, err := os.ReadFile(run.Replay)
 	must(err, "replay file")
@@ -1250,7 +1389,8 @@ func replay(run *ev.Run) {
 	w := newWorker()
 	o := w.judge(f.Replay)
 	for _, kind := range sortedKinds(o) {
-		run.Violate(f.Replay.sig(kind), o.Kinds[kind], f.Replay)
+		ws, _, _ := w.probe(f.Replay, kind)
+		run.Violate(f.Replay.classKey(kind)+"|where="+ws, o.Kinds[kind], f.Replay)
 	}
 	fmt.Printf("C11 replay %s files=%s must_go=%d removed=%d dry=(%d files, %d rows) violated=%v %s\n", f.Replay.head(), filesString(f.Replay.Files), o.MustDelete, o.Deleted, o.DryFiles, o.DryRows, sortedKinds(o), o.Skipped)
 	w.close()
